@@ -27,6 +27,7 @@ def _events(args):
 
     rnd = random.Random(seed)
     ev = []
+    pos_ev = []
 
     def back(l):
         if l.is_empty:
@@ -87,6 +88,23 @@ def _events(args):
             ctor = E.outcome(lambda: holder.append(
                 on_chunk(other_chunk()).liftover_to_parent_or_seq_chunk_parent(chunk)) or 1)
         ev.append(twin_row(A, holder[0] if holder else None, blocks, st, cds, frames, R, ws, we, route, ctor, on_chunk))
+        if holder and rnd.random() < 0.5:
+            # the chromosome-level conversions of the chunk-built transcript, judged by the C06 trace specification
+            B, o = holder[0], E.outcome
+            n = sum(b[1] - b[0] for b in blocks)
+            m = sum(b[1] - b[0] for b in cds) if cds else 0
+            rng_p = range(-1, G + 1)
+            aa = [o(lambda p=p: B.cds.sequence_pos_to_amino_acid(p)) for p in rng_p] if (cds and B.cds is not None) \
+                else [["x", "CdsMissingOnChunk"] for _ in rng_p]
+            pos_ev.append(["txpos", [blocks, st], [cds, st] if cds else [[], "e"], G,
+                           [o(lambda p=p: B.sequence_pos_to_transcript(p)) for p in rng_p],
+                           [o(lambda i=i: B.transcript_pos_to_sequence(i)) for i in range(-1, n + 1)],
+                           [o(lambda p=p: B.sequence_pos_to_cds(p)) for p in rng_p],
+                           [o(lambda i=i: B.cds_pos_to_sequence(i)) for i in range(-1, m + 1)],
+                           [o(lambda i=i: B.transcript_pos_to_cds(i)) for i in range(-1, n + 1)],
+                           [o(lambda i=i: B.cds_pos_to_transcript(i)) for i in range(-1, m + 1)],
+                           aa if cds else [o(lambda p=p: B.cds.sequence_pos_to_amino_acid(p)) for p in rng_p],
+                           E.loc_outcome(lambda: B.chromosome_intron_location), E.loc_outcome(lambda: B.chromosome_span)])
 
         kind = rnd.choice(["none", "feature", "gene", "collection", "fcollection"])
         strand = Strand.from_symbol(st)
@@ -178,6 +196,15 @@ def _events(args):
             for i, (fA, fB) in enumerate(zip(FA.feature_intervals, FB.feature_intervals)):
                 ev.append(twin_row(fA, fB, blocks if i == 0 else blocks[-1:], st, None, [], R, ws, we,
                                    r4 + "/child", ["v", 1]))
+    return ev, pos_ev
+
+
+def _corrupt_pos(ev, rnd):
+    slots = [(k, i) for k in range(4, 11) for i, o in enumerate(ev[k]) if o[0] == "v"]
+    if not slots:
+        return None
+    k, i = rnd.choice(slots)
+    ev[k][i] = ["v", ev[k][i][1] + 1]
     return ev
 
 
@@ -215,8 +242,11 @@ def run(chk):
     elif len(items) > 400000:
         items = rnd.sample(items, 400000)
     parts = pmap(_events, [(items[i::64], G, chk.seed * 601 + i) for i in range(64)])
-    evs = [e for p in parts for e in p]
+    evs = [e for p in parts for e in p[0]]
+    pos_evs = [e for p in parts for e in p[1]]
     chk.validate("C07Trace", evs, shard=1500, label="chunk", keyfn=_key)
+    chk.validate("C06Trace", pos_evs, shard=600, label="chunk-positions", corrupt=_corrupt_pos)
+    chk.extra["chunk_built_transcripts_with_all_position_conversions"] = len(pos_evs)
     chk.nontrivial = len({str(e[1:8]) for e in evs})
     chk.extra["routes"] = {r: sum(1 for e in evs if e[0] == "twin" and e[7] == r) for r in sorted({e[7] for e in evs if e[0] == "twin"})}
     chk.extra["aggregate_twins"] = sum(1 for e in evs if e[0] == "agg")
